@@ -53,6 +53,7 @@ from tensordict._contextlib import LAST_OP_MAPS
 from tensordict._nestedkey import NestedKey
 from tensordict.memmap import MemoryMappedTensor
 from tensordict.utils import (
+    _check_index_ndim,
     _as_context_manager,
     _CloudpickleWrapper,
     _DTYPE2STRDTYPE,
@@ -585,6 +586,7 @@ class TensorDictBase(MutableMapping):
         # )
         if istuple and any(idx is Ellipsis for idx in index):
             index = convert_ellipsis_to_idx(index, self.batch_size)
+        _check_index_ndim(index, self.batch_dims)
         if all(isinstance(idx, slice) and idx == slice(None) for idx in index):
             return self
 
